@@ -5,7 +5,7 @@ From JT.Base Require Import Prelude PreludeP.
 From JT.Model Require Import Frame Unpack Subpkg Server.
 From JT.Model Require Ranges Reply Attach Location.
 From JT.Proofs Require Import Frame_proofs.
-From JT.Proofs Require Location_proofs Attach_proofs.
+From JT.Proofs Require Location_proofs Attach_proofs Total_msgs_proofs.
 From Coq Require Import ZArith ZifyN ZifyNat ZifyBool.
 Ltac Zify.zify_post_hook ::= Z.div_mod_to_equations.
 
@@ -203,6 +203,10 @@ Proof.
   - rewrite auth_code_chk_ok. discriminate.
   - pose proof (parse1211_total (m_body m)). destruct (Ranges.parse1211 _); try discriminate. congruence.
   - pose proof (parse1210_total 1 (m_body m)). destruct (Attach.parse1210 _ _); try discriminate. congruence.
+  - pose proof (Total_msgs_proofs.parse_msg_total (m_id m) (fun x => x) (if m_ver m =? 1 then 3 else 2) 1
+                  (Total_base.VL []) (m_body m)) as H.
+    destruct (Total_msgs.parse_msg _ _ _ _ _ _); try discriminate. exfalso. apply H; [|reflexivity].
+    destruct (m_ver m =? 1); auto.
 Qed.
 
 (* ====================== JT808: one connection never panics ====================== *)
